@@ -16,6 +16,7 @@
 import Driver.Util
 import AM.Model.Dedup
 import AM.Model.Group
+import AM.Model.Suppress
 
 namespace Driver.Sys
 open Driver AM AM.AList AM.Nflog AM.Dedup AM.Group
@@ -252,11 +253,11 @@ def step0 (σ : St) (op obs : List String) : St × List Msg :=
       let part := partition gs.g wall
       -- pipeline order: Inhibit → TimeActive → TimeMute → Silence; the time stages drop the whole flush
       let tm := timeMuted σ tick
-      let supp : List (Nat × String) := part.filterMap fun (a, _) =>
-        if inhibited σ a.id wall then some (a.id, "inhibited")
-        else if tm then some (a.id, "time-muted")
-        else if silenced σ a.id wall then some (a.id, "silenced") else none
-      let unm := part.filter fun (a, _) => !(supp.any (·.1 = a.id))
+      -- AM.Suppress: the verdicts of this flush, the reason an alert is withheld, what survives the mute stages
+      let v : AM.Suppress.Verdicts := { inhibited := fun i => inhibited σ i wall, silenced := fun i => silenced σ i wall, timeMuted := tm }
+      let supp : List (Nat × String) := part.filterMap fun (a, _) => (AM.Suppress.reason v a.id).map fun r => (a.id, r)
+      let survivors := AM.Suppress.surviving v (part.map fun (a, r) => (a.id, r))
+      let unm := part.filter fun (a, r) => survivors.contains (a.id, r)
       let fl : Inflight := { tick, wall, snap := resolvedSlice gs.g wall, supp,
                              firing := (unm.filter (!·.2)).map (·.1.id), resolved := (unm.filter (·.2)).map (·.1.id) }
       let tags := [Msg.tag "flush"] ++ (if tick < wall then [Msg.tag "flush:overrun"] else [])
